@@ -208,6 +208,27 @@ def check(run):
             run.fail('D5', 'Boc.deserialize[references]', f'{what} (index {val}) is accepted', wd, witness=dict(boc=bytes(mut).hex()))
         except RaiseEx:
             run.ok('D5', what)
+    # the same reference faults in a cell that no root reaches (root -> cell 2 directly; cell 1 is an orphan that still references cell 2): the bag
+    # is parsed as a table of cells, a fault in any entry is a fault of the bag - a parser that builds on demand from the roots never looks at it
+    orphan = bytearray(raw)
+    orphan[first_ref] = 2
+    try:
+        parse(prog, bytes(orphan))
+        orphan_ok = True
+    except RaiseEx:
+        orphan_ok = False        # the parser refuses unreachable cells altogether: stricter than the clause needs, nothing to add
+        run.info('a bag with a cell no root reaches is refused as such')
+    if orphan_ok:
+        for what, val in (('backward reference in an unreachable cell', 0), ('self reference in an unreachable cell', 1), ('dangling reference in an unreachable cell', 3),
+                          ('dangling reference (255) in an unreachable cell', 255)):
+            mut = bytearray(orphan)
+            mut[second_ref] = val
+            try:
+                parse(prog, bytes(mut))
+                run.fail('D5', 'Boc.deserialize[references of unreachable cells]', f'{what} (index {val}) is accepted', wd, witness=dict(boc=bytes(mut).hex()))
+            except RaiseEx:
+                run.ok('D5', what)
+            run.evaluations += 1
     # root index out of range
     mut = bytearray(raw)
     mut[hdr - 1] = 9
